@@ -114,6 +114,25 @@ def step3 (cfg : Cfg) (s : State3) : Op3 → Except Err State3
           | .error e => .error e
           | .ok b3 => .ok { setBase s b3 with ibcOut := bump s.ibcOut g n }
 
+/-- the calls of `transferIBCHandler` / the precompile's `ibcTransfer`, interpreted on the state in the given order -/
+def runIbcCalls (cfg : Cfg) (g u n : Nat) : List FCall → State → Except Err State
+  | [], s => .ok s
+  | .baseCoinToIBCCoin :: r, s =>
+    match stepIbc cfg s (.toIbc g u n) with
+    | .ok s' => runIbcCalls cfg g u n r s'
+    | .error e => .error e
+  | .ibcTransfer :: r, s =>
+    match stepIbc cfg s (.xfer g u n) with
+    | .ok s' => runIbcCalls cfg g u n r s'
+    | .error e => .error e
+  | _ :: _, _ => .error .invalid
+
+/-- flow of one call inside `IBCCoinToEvm` -/
+def FCall.ibcInFlow (k : Kind) (g : Nat) (h : Addr) (n : Nat) : FCall → Option (List Prim)
+  | .ibcCoinToBaseCoin => some (FxVerif.Model.C04.ibcCoinToBaseCoin g h n)
+  | .convertCoin => some (FxVerif.Model.Flows.convertCoin k g h h n)
+  | _ => none
+
 def stepT3 (cfg : Cfg) (s : State3) (op : Op3) : State3 :=
   match step3 cfg s op with
   | .ok s' => s'
